@@ -979,6 +979,7 @@ package router
 //@   ensures [C10:every-rule-kept-in-order] err == nil ==> rr != nil && len(rr.rules) == len(cfg.Rules)
 //@             && forall(k, 0, len(cfg.Rules), ruleAsConfigured(rr, rr.rules[k], cfg.Rules[k].Reverse, cfg.Rules[k].Domain, cfg.Rules[k].Reject, cfg.Rules[k].Forward))
 //@   ensures [C18:startup-error-returns-no-router] err != nil ==> rr == nil
+//@   ensures [C18:a-started-router-can-be-closed] err == nil ==> rr.ctx != nil && rr.cancel != nil && rr.limiter != nil && closersOK(rr) && upstreamsOK(rr)
 //@   callsite startServer?: [C18:listeners-start-on-a-fully-initialised-router] routerReady(arg0)
 //@   loop 1:
 //@     modifies obj(r.upstreams)
@@ -1765,4 +1766,27 @@ package router
 //@   ensures [C18:engine-stopped-once] nStop == 1
 //@   callsite Store: [C18:marked-closed] arg0 == &e.closed && arg1 == true
 //@   callsite Stop: [C18:marked-closed-before-the-engine-stops] nMark == 1
+
+// The `router` command: the configuration file is decoded strictly - a key that no configuration field carries is
+// an error (mapstructure's ErrorUnused), matched by the fields' yaml tags, into the Config that is then run.
+//@ closure newRouterCmd$1
+//@   props C10
+//@   modifies *
+//@   noterm
+//@   assumecall Context: ret0 != nil -- main runs the command with a context (cobra's ExecuteContext)
+//@   ghost gDec *mapstructure.Decoder = nil
+//@   ghost gNewErr error = nil
+//@   ghost gDecErr error = nil
+//@   ghost gYamlErr error = nil
+//@   ghost nDecode int = 0
+//@   aftercall Unmarshal: gYamlErr = ret0
+//@   aftercall NewDecoder: gDec = ret0
+//@   aftercall NewDecoder: gNewErr = ret1
+//@   oncall Decode: nDecode = nDecode + 1
+//@   aftercall Decode: gDecErr = ret0
+//@   callsite Unmarshal: [C10:the-file-is-parsed-into-the-map-that-is-decoded] arg1 == m
+//@   callsite NewDecoder: [C10:unknown-keys-are-an-error] arg0 != nil && arg0.ErrorUnused && arg0.TagName == "yaml" && !arg0.WeaklyTypedInput
+//@   callsite NewDecoder: [C10:decodes-into-the-configuration-that-runs] typeIs(arg0.Result, *Config) && ptrOf(arg0.Result, Config) == cfg
+//@   callsite Decode: [C10:the-strict-decoder-decodes-the-parsed-file] gYamlErr == nil && gNewErr == nil && arg0 == gDec && arg1 == m
+//@   callsite run: [C10:only-a-configuration-that-decoded-cleanly-runs] nDecode == 1 && gDecErr == nil && arg1 == cfg
 
